@@ -4,6 +4,14 @@ import json, os
 VERIF = os.path.dirname(os.path.dirname(os.path.abspath(__file__)))
 TECH = 'CBMC code contracts on C rendered mechanically from the real C++ (bx2c): per-function assume/guarantee obligations, label-machine invariants for cycles'
 CLAIMED = {
+ 'C01': ('proof', 'For every background routine that exists in the reference and every emission kernel: the C++ routine simulates the reference routine (rendered from the .for on each run) cut point by cut point: same successor, same deviates consumed, same emission calls with equal arguments, related variables equal; for all deviates and rejection-loop trajectories.', '3 C01',
+         'beta kernels, the leaf particle(), tgold/fermi, genbbsub background chaining and the angular-correlation blocks of Co60/Bi207 are not yet related (listed per run); f77c and the simulation meta-lemma are trusted'),
+ 'C02': ('proof', 'Same simulation proof for the 42 daughter cascades (*low) and the alpha-chain routines; DBD level/Q table of genbbsub related to GENBBsub by the C06 obligations.', '3 C02',
+         'bb(), fe*_mods, dshelp*, gauss/dgmlt (reported event ratio), Ru100low/Se76low/Sm150low correlation blocks not yet related'),
+ 'C05': ('proof', 'For each of the 69 published background names: genbbsub initialises, and the generate phase calls exactly the documented scheme routine(s) once, in order, with the daughter delayed by its decay time (ghost call log, all deviates); README lists, .lis files and genbbsub name tests compared as sets.', '3 C05',
+         'scheme routines abstracted to "log id + append particles"; bb_utils.cc list parser and the CLI are not reachable'),
+ 'C06': ('proof', 'For each of the 51 isotopes (and unknown names) and ALL int levels and modes: genbbsub init accepts exactly when the reference GENBBsub (rendered per name by f77c) accepts and sets Qbb/Zdbb/Adbb/EK/levelE/itrans02 identically; level table cross-checked with README Appendix 1; 4-beta, sign and mode-range rules asserted directly.', '3 C06',
+         'gA routing, energy-window validation and label<->mode bijection (decay0_generator.cc, bb_utils.cc) are STL/iostream code: not covered'),
  'C03': ('proof', 'Every path of every *low cascade releases the tabulated level energy (nominal accounting defined by the L1/L2 emission contracts) within 3 keV: one CBMC query per routine over all deviates and all tabulated levels.', '3 C03',
          'nominal vs booked energy gap bounded per call by the L2 lemmas; bb/genbbsub Q-value closure and the window facts are not yet under contract (listed in evidence.not_covered)'),
  'C04': ('proof', 'For all deviates: every call-site precondition of every emission primitive holds in all 123 L3 routines (energies >= 0 and above thresholds, finite times), >= 1 and <= 60 particles per routine, decay time >= creation time, no exception, every cycle consumes a deviate.', '3 C04',
@@ -12,10 +20,10 @@ CLAIMED = {
          'uninitialised reads not covered; kernels/bb/genbbsub bodies pending'),
 }
 NA = {
- 'C01': 'not built yet: relational proof against the Fortran reference (DESIGN 2.5) is the next build step',
- 'C02': 'not built yet: relational proof against the Fortran reference (DESIGN 2.5)',
- 'C05': 'not built yet: genbbsub dispatch call-log obligations (DESIGN 3 C05)',
- 'C06': 'not built yet: genbbsub init obligations (DESIGN 3 C06)',
+ '_C01': 'not built yet: relational proof against the Fortran reference (DESIGN 2.5) is the next build step',
+ '_C02': 'not built yet: relational proof against the Fortran reference (DESIGN 2.5)',
+ '_C05': 'not built yet: genbbsub dispatch call-log obligations (DESIGN 3 C05)',
+ '_C06': 'not built yet: genbbsub init obligations (DESIGN 3 C06)',
  'C07': 'not built yet: frame / non-interference obligations (DESIGN 3 C07)',
  'C09': 'state machine of decay0_generator: std::string/shared_ptr/pimpl members and exceptions as protocol; CBMC cannot parse the TU and a C rendering would verify a hand-written model of libstdc++, not the code',
  'C10': 'not built yet: MDL frame obligations (DESIGN 3 C10)',
@@ -38,7 +46,7 @@ def main():
          'hooks': {'guard': 'BXDECAY0_VERIF', 'enable': 'no source hooks: the checks read /repo\'s working tree through clang\'s AST and compile it natively for replay; nothing is built with the guard', 'baseline_off_cmd': 'cmake -G Ninja -S /repo -B /repo/_build >/dev/null && cmake --build /repo/_build -j16 && ctest --test-dir /repo/_build -j8 --timeout 900', 'source_commits': [], 'add_only': True},
          'engines': [{'name': 'cbmc-contracts', 'path': 'tools/check.py', 'serves_properties': sorted(CLAIMED), 'kind_free_text': 'bx2c (clang AST -> C) + contracts/*.spec + obligation generator + CBMC 6.11 (CaDiCaL), native ASan replay'}],
          'checks': checks,
-         'notes': 'fix: commits in /repo: bfd13f2 c8a3a24 b84bb42 d87251a (dangling particle pointers). known_findings.txt lists recorded defects.',
+         'notes': 'fix: commits in /repo are recorded as fixed: lines in known_findings.txt; known: lines list recorded defects.',
          'not_applicable': [{'property_id': k, 'reason': v} for k, v in sorted(NA.items()) if k not in CLAIMED]}
     json.dump(m, open(os.path.join(VERIF, 'MANIFEST.json'), 'w'), indent=1)
 main()
